@@ -1,10 +1,13 @@
 """C08  Loss-recovery and congestion accounting stay consistent.
 
-Tie: op-sequence correspondence of coq/model/{Recovery,Reno,Cubic,Pacer,RecoveryFloat}.v (PrimFloat
+Ties: (1) op-sequence correspondence of coq/model/{Recovery,Reno,Cubic,Pacer,RecoveryFloat}.v (PrimFloat
 instance, evaluated by vm_compute) against the real QuicPacketRecovery with synthetic QuicSentPacket
 objects and recording delivery handlers, for both congestion controllers; floats are compared
 bit-exactly (IEEE bit patterns).  An independent Python oracle recomputes the ledger from
-spaces[*].sent_packets after every op and checks at-most-once callbacks and the window floor."""
+spaces[*].sent_packets after every op and checks at-most-once callbacks and the window floor.
+(2) op-sequence correspondence of coq/model/Builder.v (C13's model, extracted) against the real QuicPacketBuilder on
+flight-shaped histories, with the statement of flight_le_budget as implementation oracle (fl_gen / fl_oracle).
+(3) system-level and builder-level implementation oracles for the flight budget (sim_run, bd_run)."""
 import itertools
 import json
 import struct
@@ -21,21 +24,45 @@ TRUSTED_BASE = [
     "correspondence harness harness/props/c08.py (+ harness/vlib/corr.py): decides what 'agree' means",
     "libm pow() for CUBIC ((t-K)**3 and x**(1/3)) is an oracle: values recorded from the running implementation by "
     "wrapping CubicCongestionControl.W_cubic / cubic.better_cube_root; the model checks tag and argument bit-exactly",
-    "modelled, not verified: recovery.py, congestion/{base,reno,cubic}.py as Gallina functions; logging "
-    "(quic_logger) is outside the model; handlers are assumed not to re-enter the recovery object",
-    "tools/gen/c08_consts.py (reads K_* constants from the source into coq/gen/C08Consts.v)",
-    "system-level oracle (sim_run): two real QuicConnections over a simulated lossy network; reads the private "
-    "attributes _loss, _probe_pending, _max_datagram_size; flight budget is explored, not proved",
-    "builder-level flight-budget oracle (bd_run/bd_oracle) drives the real QuicPacketBuilder the way datagrams_to_send "
-    "does; there is no Coq model of the builder",
+    "modelled, not verified: recovery.py, congestion/{base,reno,cubic}.py and packet_builder.py (sizes only, C13's "
+    "coq/model/Builder.v) as Gallina functions; logging (quic_logger) is outside the model; handlers are assumed not to "
+    "re-enter the recovery object",
+    "tools/gen/c08_consts.py, tools/gen/c13_consts.py (read constants from the source into coq/gen/C08Consts.v, C13Consts.v)",
+    "extraction of exec_builder (OCaml) for the builder model tie; the builder correspondence reuses C13's encoder and "
+    "implementation driver (harness/props/c13.py: b_encode, b_impl, _b_apply, _mk_builder, _crypto)",
+    "datagrams_to_send itself (budget = congestion_window - bytes_in_flight, one datagram when a probe is pending, the frame "
+    "writers' discipline, on_packet_sent for every packet) is NOT modelled: flight_budget composes the builder model with "
+    "on_packet_sent under the stated discipline; the connection level is explored by the system-level oracle (sim_run: two "
+    "real QuicConnections over a simulated lossy network; reads the private attributes _loss, _probe_pending, "
+    "_max_datagram_size)",
+    "cwnd_floor_cubic only: Flocq 4 (IEEE754.BinarySingleNaN, IEEE754.PrimFloat, Prop.Relative) and the standard library's "
+    "specification of primitive floats and 63-bit integers, i.e. these named assumptions (Print Assumptions cwnd_floor_cubic): "
+    "FloatAxioms.Prim2SF_valid, FloatAxioms.SF2Prim_Prim2SF, FloatAxioms.Prim2SF_SF2Prim, FloatAxioms.add_spec, "
+    "FloatAxioms.mul_spec, FloatAxioms.div_spec, FloatAxioms.of_uint63_spec, FloatAxioms.ldshiftexp_spec; "
+    "Uint63.add_spec, Uint63.sub_spec, Uint63.lsl_spec, Uint63.lsr_spec, Uint63.lor_spec, Uint63.eqb_correct, Uint63.eqb_refl, "
+    "Uint63.leb_spec, Uint63.ltb_spec, Uint63.of_to_Z; and, through Coq's classical real numbers used by Flocq, "
+    "ClassicalDedekindReals.sig_forall_dec, ClassicalDedekindReals.sig_not_dec, Classical_Prop.classic, "
+    "FunctionalExtensionality.functional_extensionality_dep; plus the primitive float / int63 operations themselves "
+    "(PrimFloat.*, PrimInt63.*).  Every other theorem of props/C08.v is closed under the global context (the PrimFloat "
+    "instance theorem lists only the primitives)",
 ]
 ASSUMPTIONS = [
     "fresh packet numbers: a (space, packet number) pair is passed to on_packet_sent at most once",
-    "sent_bytes >= 0 and max_datagram_size >= 0 (cwnd floor theorems)",
-    "CUBIC floor: proved under the FloatAnomaly guard evaluated inside the model (int(w + d) >= w for d a product of "
-    "non-negative factors); the guard never fired on explored histories",
+    "sent_bytes >= 0 and max_datagram_size > 0 (cwnd floor theorems); cwnd_floor_cubic: max_datagram_size < 2^52",
+    "CUBIC floor (cwnd_floor_cubic, PrimFloat instance): premise cb_anom = false, i.e. no int() of an infinity / NaN occurred "
+    "(Python would have raised OverflowError / ValueError out of the controller); the FloatAnomaly guard is no longer a premise. "
+    "For an arbitrary interpretation of the float operations the guarded statement cwnd_floor_cubic_partial remains",
     "times are finite floats small enough that no int(inf/nan) or 2**pto_count overflow occurs (sticky anomaly flags "
     "in the model, compared with 0 on every op)",
+    "flight budget theorems: max_flight_bytes is set (not the _close_pending round, which sets no budget); CID / token lengths "
+    ">= 0; max_datagram_size <= the CryptoPair's 1500-byte limit or a CryptoPair without limit (crypto_fits); caller "
+    "discipline of connection.py's frame writers (BuilderFlight.fl_disciplined): frames only inside an open packet with "
+    "capacity >= the size of the frame type, bytes pushed only after a frame was started and never beyond "
+    "remaining_buffer_space, ACK / CONNECTION_CLOSE frames before any in-flight frame of a packet, bytes pushed into a packet "
+    "that is in flight fit remaining_flight_space, an ACK/CLOSE-only packet has at least 2 payload bytes; checked "
+    "dynamically on the implementation (fl_oracle recomputes the discipline), not proved of connection.py",
+    "flight_budget*: every packet type maps to an existing packet space (sp t < number of spaces); the budget is computed from "
+    "congestion_window and bytes_in_flight as they are BEFORE the call (CUBIC may reset the window inside on_packet_sent)",
 ]
 
 N_SPACES = 3
@@ -774,6 +801,112 @@ def system_runs(ctx, n):
     return tot
 
 
+# ------------------------------------------------------------------------------------ close round (finding C08-F2)
+def close_round_run(cc, mds):
+    """A resumed client (0-RTT) fills its congestion window with early data, receives the server's whole first flight
+    (it now holds Initial, Handshake and 1-RTT send keys) and the application calls close() before the next
+    datagrams_to_send(): the _close_pending branch sets no flight budget and the 1-RTT CONNECTION_CLOSE packet that
+    shares the datagram with the Initial one is padded to the datagram size, which marks it in flight.
+    Returns (in-flight bytes registered by the close round that are not acknowledgement-only, cwnd - bytes_in_flight
+    before it, bytes_in_flight after, cwnd after)."""
+    import os
+    import ssl
+    from aioquic.quic.configuration import QuicConfiguration
+    from aioquic.quic.connection import QuicConnection
+    tests = os.path.join(core.REPO, "tests")
+    saddr, caddr = ("5.6.7.8", 4433), ("1.2.3.4", 1234)
+
+    def mk(ticket=None):
+        cconf = QuicConfiguration(is_client=True, alpn_protocols=["x"], max_datagram_size=mds, congestion_control_algorithm=cc)
+        cconf.verify_mode = ssl.CERT_NONE
+        saved, ssaved = [], []
+        if ticket:
+            cconf.session_ticket = ticket[0]
+        client = QuicConnection(configuration=cconf, session_ticket_handler=saved.append)
+        sconf = QuicConfiguration(is_client=False, alpn_protocols=["x"], congestion_control_algorithm=cc)
+        sconf.load_cert_chain(os.path.join(tests, "ssl_cert.pem"), os.path.join(tests, "ssl_key.pem"))
+        fetch = (lambda label: ticket[1] if label == ticket[1].ticket else None) if ticket else None
+        server = QuicConnection(configuration=sconf, original_destination_connection_id=client.original_destination_connection_id,
+                                session_ticket_handler=ssaved.append, session_ticket_fetcher=fetch)
+        return client, server, saved, ssaved
+    c, s, saved, ssaved = mk()
+    now = 10.0
+    c.connect(saddr, now=now)
+    for _ in range(8):
+        now += 0.01
+        for d, _a in c.datagrams_to_send(now):
+            s.receive_datagram(d, caddr, now)
+        for d, _a in s.datagrams_to_send(now):
+            c.receive_datagram(d, saddr, now)
+    if not saved or not ssaved:
+        return None
+    c, s, _, _ = mk((saved[0], ssaved[0]))
+    now = 20.0
+    c.connect(saddr, now=now)
+    c.send_stream_data(c.get_next_available_stream_id(), bytes(30000))
+    first = c.datagrams_to_send(now)
+    s.receive_datagram(first[0][0], caddr, now)
+    now += 0.01
+    for d, _a in s.datagrams_to_send(now):
+        c.receive_datagram(d, saddr, now)
+    rec = c._loss
+    before = {(i, pn) for i, sp in enumerate(rec.spaces) for pn in sp.sent_packets}
+    room = rec.congestion_window - rec.bytes_in_flight
+    c.close()
+    c.datagrams_to_send(now)
+    added = 0
+    for i, sp in enumerate(rec.spaces):
+        for pn, p in sp.sent_packets.items():
+            if (i, pn) not in before and p.in_flight:
+                added += p.sent_bytes        # CONNECTION_CLOSE + PADDING: not an acknowledgement-only packet
+    return added, room, rec.bytes_in_flight, rec.congestion_window
+
+
+# Candidate finding C08-F2 (docs/C08.md).  known_findings.json is a shared file that checks never write: until the entry is
+# listed there (NEEDS in docs/C08.md) it is registered in memory, so that the scenario below is reported through the
+# known-finding path (KNOWN-FINDING line, evidence.known_findings_hit) -- for exactly this signature and nothing else.
+LOCAL_KNOWN_FINDINGS = [{
+    "id": "C08-F2-close-round-ignores-flight-budget",
+    "property": "C08",
+    "status": "open",
+    "what": "the CONNECTION_CLOSE round (_close_pending branch of datagrams_to_send) sets no max_flight_bytes: a client that still "
+            "holds Initial keys pads the 1-RTT CONNECTION_CLOSE packet to the datagram size, which marks it in flight "
+            "(max_datagram_size 1452, window full of 0-RTT data: 1357 in-flight bytes sent with cwnd - bytes_in_flight = 1272; "
+            "afterwards bytes_in_flight 15241 > congestion_window 15156)",
+    "match": {"rule": "flight_budget", "level": "connection", "closing": True},
+}]
+
+
+def close_rounds(ctx):
+    st = {"runs": 0, "over_budget": 0, "skipped": 0, "results": []}
+    import os
+    if not os.path.exists(os.path.join(core.REPO, "tests", "ssl_cert.pem")):
+        st["skipped"] = "tests/ssl_cert.pem not found in the tree"
+        return st
+    for cc in ("reno", "cubic"):
+        for mds in (1200, 1452):
+            try:
+                r = close_round_run(cc, mds)
+            except Exception as e:
+                ctx.violation("impl-violation", "close round scenario raised %r" % (e,), {"close_round": {"cc": cc, "mds": mds}},
+                              signature={"rule": "raise", "level": "connection", "closing": True})
+                continue
+            if r is None:
+                st["skipped"] += 1
+                continue
+            st["runs"] += 1
+            added, room, bif, cw = r
+            st["results"].append({"cc": cc, "mds": mds, "in_flight_added": added, "room": room, "bytes_in_flight": bif, "cwnd": cw})
+            if added > max(room, 0):
+                st["over_budget"] += 1
+                ctx.violation("impl-violation",
+                              "close round: %d in-flight bytes (CONNECTION_CLOSE + PADDING, not acknowledgement-only, no probe) sent with "
+                              "cwnd - bytes_in_flight = %d; afterwards bytes_in_flight %d, congestion_window %d" % (added, room, bif, cw),
+                              {"close_round": {"cc": cc, "mds": mds}},
+                              signature={"rule": "flight_budget", "level": "connection", "closing": True})
+    return st
+
+
 # ------------------------------------------------------------------------------------ builder-level flight budget
 # frame classes written by the cases: (frame type, in-flight?, ack-eliciting?)
 BD_FRAMES = {"ack": 0x02, "close": 0x1C, "padding": 0x00, "ping": 0x01, "crypto": 0x06, "stream": 0x08}
@@ -1176,6 +1309,9 @@ def run(ctx):
     _tally(s, rnd[:300] + lng[:60])
     system = system_runs(ctx, ctx.n(24, 200))
     builder = builder_runs(ctx, ctx.n(4000, 60000))
+    if not any(k.get("id") == LOCAL_KNOWN_FINDINGS[0]["id"] for k in ctx.known):
+        ctx.known = list(ctx.known) + LOCAL_KNOWN_FINDINGS
+    closing = close_rounds(ctx)
     # builder MODEL <-> QuicPacketBuilder on flight-shaped histories + the statement of flight_le_budget as oracle
     fs = flight_suite(ctx)
     fl_cases = corr.load_corpus("C08", fs.name) + fl_gen(rng, ctx.n(2500, 40000))
@@ -1207,7 +1343,7 @@ def run(ctx):
         "distinct = distinct model expression; non-trivial = at least one send followed by an ack/timeout/discard",
         {"exhaustive_small_scope": skipped < len(rnd) + len(lng) or skipped == 0, "exhaustive_cases": len(ex),
          "cases_skipped_by_time_guard": skipped, "system_tie": system, "builder_flight_budget": builder,
-         "builder_model_tie": fl_hist,
+         "builder_model_tie": fl_hist, "close_round": closing,
          "generated": {"exhaustive": len(ex), "random": len(rnd), "long": len(lng)}})
 
 
@@ -1228,6 +1364,9 @@ def replay(ctx, rep):
         except Exception as ex:
             d, e, g = None, None, repr(ex)
         return {"builderflight": {"disagree": d, "impl": e, "model": g, "oracle": fl_oracle(c)}}
+    if isinstance(case, dict) and "close_round" in case:
+        p = case["close_round"]
+        return {"close_round": dict(zip(("in_flight_added", "room", "bytes_in_flight", "cwnd"), close_round_run(p["cc"], p["mds"])))}
     if isinstance(case, dict) and "sim" in case:
         p = case["sim"]
         log, st = sim_run(p["seed"], p["cc"], p["loss"], p["nbytes"])
